@@ -250,3 +250,38 @@ def interesting_lengths(cfg):
         for r in (0, 1, Sv // 2, Sv - 1):
             s.add(Lv + j * Sv + r)
     return sorted(x for x in s if x >= 0)
+
+
+# --------------------------------------------------------------------------
+# memory layouts of a 1-D signal (the same samples as a view into a longer / multi-channel / reversed / read-only array)
+LAYOUTS = ["contiguous", "contiguous", "every second sample of a longer array", "one channel of an interleaved stereo array",
+           "slice at an offset of a longer array", "reversed view", "read-only"]
+
+
+def laid_out(x, layout):
+    """x's values in the given memory layout: (array to hand over, backing array, pristine copy of the backing array)."""
+    n = len(x)
+    if layout == "every second sample of a longer array":
+        back = np.full(2 * n + 1, 7.0, dtype=x.dtype)
+        back[1 : 2 * n : 2] = x
+        v = back[1 : 2 * n : 2]
+    elif layout == "one channel of an interleaved stereo array":
+        back = np.full((n, 2), 7.0, dtype=x.dtype)
+        back[:, 1] = x
+        v = back[:, 1]
+    elif layout == "slice at an offset of a longer array":
+        back = np.full(n + 11, 7.0, dtype=x.dtype)
+        back[5 : 5 + n] = x
+        v = back[5 : 5 + n]
+    elif layout == "reversed view":
+        back = x[::-1].copy()
+        v = back[::-1]
+    elif layout == "read-only":
+        back = x.copy()
+        v = back
+        v.setflags(write=False)
+    else:
+        back = x.copy()
+        v = back
+    assert v.shape == (n,) and np.array_equal(v, x)
+    return v, back, back.copy()
